@@ -60,7 +60,7 @@ func runCheck(repo, verif, prop, tier string, t0 time.Time) (int, error) {
 	if s := os.Getenv("VERIF_SEED"); s != "" {
 		seed, _ = strconv.Atoi(s)
 	}
-	timeout, coverTimeout := 10, 2
+	timeout, coverTimeout := 10, 1
 	allSolvers := false
 	if tier == "thorough" {
 		timeout, coverTimeout = 60, 5
@@ -83,7 +83,7 @@ func runCheck(repo, verif, prop, tier string, t0 time.Time) (int, error) {
 
 	var obls, covers []*Obligation
 	perFunc := map[string]int{}
-	var unsupported []string
+	unsupported := []string{}
 	var trusted []string
 	assumptions := map[string]bool{}
 	callees := map[string]bool{}
@@ -160,7 +160,7 @@ func runCheck(repo, verif, prop, tier string, t0 time.Time) (int, error) {
 	var solverTime float64
 	discharged := 0
 	var failing []*Obligation
-	var knownHit []string
+	knownHit := []string{}
 	for _, o := range obls {
 		reports = append(reports, oblReport{Name: o.Name, Kind: o.Kind, Status: o.Status, Backend: o.Backend, TimeS: round3(o.TimeS),
 			Quant: o.Quant, Pos: fmt.Sprintf("%s:%d", relPath(repo, o.Pos.Filename), o.Pos.Line)})
@@ -243,7 +243,7 @@ func runCheck(repo, verif, prop, tier string, t0 time.Time) (int, error) {
 				Quant: o.Quant, Pos: fmt.Sprintf("%s:%d", relPath(repo, o.Pos.Filename), o.Pos.Line), Goal: clip(o.Goal.String(), 400), Hyps: len(o.Hyps)})
 		}
 	}
-	var asl []string
+	asl := []string{}
 	for a := range assumptions {
 		asl = append(asl, a)
 	}
@@ -281,8 +281,8 @@ func runCheck(repo, verif, prop, tier string, t0 time.Time) (int, error) {
 		"quantified_obligations":   nQuant,
 		"known_findings":           knownHit,
 		"unsupported":              unsupported,
-		"bounded":                  pe.Bounded,
-		"not_covered":              pe.NotCov,
+		"bounded":                  nonNil(pe.Bounded),
+		"not_covered":              nonNil(pe.NotCov),
 		"callees":                  cl,
 		"samples":                  samples,
 		"vacuity": map[string]interface{}{"reachability_covers": len(covers), "rule": "per function and per loop at least one path condition must not be refutable; obligation count must reach the committed floor",
@@ -371,4 +371,11 @@ func cmdReplay(args []string) int {
 	}
 	fmt.Println("replay: not reproduced")
 	return 0
+}
+
+func nonNil(s []string) []string {
+	if s == nil {
+		return []string{}
+	}
+	return s
 }
